@@ -103,12 +103,28 @@ Definition order_in_dst (c : config) (order : list path) : Prop :=
 (* ... and a call that runs to its end has seen every entry that was there *)
 Definition order_covers (c : config) (s : fs) (order : list path) : Prop :=
   forall r, r <> [] -> lookup s (dst c ++ r) <> None -> In (dst c ++ r) order.
-(* every interrupted call of a history saw an honest listing of the state it started from *)
+(* the call gets as far as creating the end marker: it is not killed before its last two operations
+   (open(end_copy_file, "w"), write) *)
+Definition seals (c : config) (s : fs) (a : attempt) : Prop :=
+  match plan c (a_order a) (a_sched a) s with
+  | ORun ops _ => List.length ops - 2 < a_kill a
+  | _ => False
+  end.
+(* what is assumed of the interrupted calls of a history: their directory scans return entries below dst only,
+   and a call that gets as far as the end marker has seen every entry that was there when it started.
+   (Calls killed earlier may have seen any part of the listing.) *)
 Fixpoint attempts_ok (c : config) (h : list attempt) (s : fs) : Prop :=
   match h with
   | [] => True
-  | a :: h' => order_in_dst c (a_order a) /\ order_covers c s (a_order a)
+  | a :: h' => order_in_dst c (a_order a) /\ (seals c s a -> order_covers c s (a_order a))
                /\ attempts_ok c h' (invoke_crashed true true c s a)
+  end.
+(* the stronger assumption "every call of the history sees an honest listing" (implies attempts_ok) *)
+Fixpoint attempts_honest (c : config) (h : list attempt) (s : fs) : Prop :=
+  match h with
+  | [] => True
+  | a :: h' => order_in_dst c (a_order a) /\ order_covers c s (a_order a)
+               /\ attempts_honest c h' (invoke_crashed true true c s a)
   end.
 
 (* decidable versions used by the correspondence check *)
